@@ -617,7 +617,8 @@ SPEC = Spec(
         "R12-RETURN: the three return conventions use the same key templates on "
         "the producing and consuming side. R12-INLINE: the inliner substitutes the "
         "call's own bindings by name, keys results by return names, does not "
-        "descend into nested definitions, and marking only tags."),
+        "descend into nested definitions, and marking only tags. "
+        "R12-INLINE also: a mapper whose map_placeholder returns arrays from elsewhere (PlaceholderSubstitutor) runs with the created-duplicate check off; it starts with caches of its own."),
     not_decided=(
         "Value equality of call results and direct application, or of inlined and "
         "outlined graphs, for all function bodies and inputs."),
